@@ -15,7 +15,7 @@ from . import c01
 PROP = "C14"
 CRASH_GUARD = True
 RULE = ("per model with amplitude output Hypothesis draws a seed for the model's own random() parameter generator "
-        "(or defaults / near-default perturbations), dispersity off or on 1-2 size parameters, an effective-radius "
+        "(defaults in 1 of 5 cases; for the three amplitude models that ship no random(), per-parameter log-uniform perturbation of the defaults by up to 10^+-0.4 with zero-default lengths drawn from 0.3-12 Ang), dispersity off or on 1-2 size parameters, an effective-radius "
         "mode and q from 1e-4/size to 20/size (size = mode-1 effective radius). Non-trivial: non-default parameter "
         "set; distinct by digest of (model, parameters, mode, q).")
 ASSUMPTIONS = [
@@ -48,12 +48,18 @@ def cases(draw, name):
     from sasmodels import core
     info = core.load_model_info(name)
     src = draw(st.sampled_from(["random", "random", "random", "random", "default"]))
+    if src == "random" and info.random is None:
+        src = "perturbed"       # three amplitude models ship no random(): perturb their defaults instead
     if src == "random":
         pars = random_pars(info, draw(st.integers(0, 10 ** 6)))
     elif src == "default":
         pars = {}
     else:
         pars = draw(S.parameter_set(info, spread=0.4, p_boundary=0.0))
+        for pname, p in S.expanded_parameters(info):
+            # lengths whose default is zero (interfacial roughness): absolute values up to a fraction of the particle
+            if p.default == 0 and p.units == "Ang" and pname in pars and draw(st.booleans()):
+                pars[pname] = draw(st.sampled_from([0.3, 1.0, 2.5, 6.0, 12.0]))
     pars.pop("scale", None)
     pars.pop("background", None)
     pd = {}
@@ -110,7 +116,8 @@ def check_fq(case, rec):
         if not abs(reff - want) <= 1e-9 * want:
             rec.fail("equivalent-volume:%s:mode%d" % (name, case["mode"]),
                      "mode %r: R=%r but (3V/4pi)^(1/3)=%r" % (mode_name, reff, want))
-    _inequality(rec, name, "mono", F1, F2)
+    region = _region(name, info, pars)
+    _inequality(rec, name, "mono", F1, F2, region)
     if np.isfinite(F2[0]) and F2[0] > 0:
         r0 = F1[0] ** 2 / F2[0]
         if abs(r0 - 1.0) > 1e-6:
@@ -134,7 +141,7 @@ def check_fq(case, rec):
         pf = dict(pp)
         pf["radius_effective_mode"] = case["mode"]
         F1, F2, reff, shell, ratio = direct_model.call_Fq(kernel, pf, cutoff=0.0)
-        _inequality(rec, name, "pd", F1, F2)
+        _inequality(rec, name, "pd", F1, F2, region)
         if not (np.isfinite(shell) and shell > 0 and np.isfinite(shell * ratio) and shell * ratio > 0):
             rec.fail("volumes:" + name, "dispersed V_shell=%r V_form=%r" % (shell, shell * ratio))
         if case["mode"] and not (np.isfinite(reff) and reff > 0):
@@ -145,10 +152,20 @@ def check_fq(case, rec):
             rec.fail("intensity-identity:pd", "%s: I=%r but scale*F2/V+bkg=%r" % (name, I, want))
 
 
-def _inequality(rec, name, tag, F1, F2):
+def _region(name, info, pars):
+    """Names the part of a model's domain a case lies in, where a recorded finding is confined to one."""
+    if name == "spherical_sld":
+        n = int(pars.get("n_shells", 1))
+        for k in range(1, n + 1):
+            if int(pars.get("shape%d" % k, 0)) == 5 and abs(pars.get("nu%d" % k, 2.5)) < 4:
+                return ":boucher-nu<4"
+    return ""
+
+
+def _inequality(rec, name, tag, F1, F2, region=""):
     F1, F2 = np.asarray(F1, float), np.asarray(F2, float)
     if not (np.all(np.isfinite(F1)) and np.all(np.isfinite(F2))):
-        rec.fail("finite:%s" % name, "%s: non-finite amplitudes F1=%r F2=%r" % (tag, F1, F2))
+        rec.fail("finite:%s%s" % (name, region), "%s: non-finite amplitudes F1=%r F2=%r" % (tag, F1, F2))
         return
     if np.any(F2 < 0) or np.any(F1 ** 2 > F2 * (1 + 1e-9) + 1e-300):
         rec.fail("inequality:%s:%s" % (tag, name), "<F>^2=%r > <F^2>=%r" % (F1 ** 2, F2))
